@@ -17,7 +17,7 @@ CTX = {"mpf_mag", "mpc_mag", "int_mag", "mpq_mag", "nint_distance_mpf", "nint_di
 
 
 def spec(case, out):
-    if case.exact is not None and case.exact[0] == "str":
+    if case.exact is not None and case.exact[0] in ("str", "tostr"):
         return strcases.spec_check(case, out)
     if case.exact is not None and case.exact[0] in ("mag", "mag2", "nintd", "bool", "list", "v0", "tuple", "tofloat") or case.fn == "from_float_parts":
         return ctxcases.spec_check(case, out)
